@@ -641,19 +641,13 @@ Section WFMut.
   Qed.
 End WFMut.
 
-Print Assumptions reach_ok_ext.
-Print Assumptions slot_write_WF_gen.
+(* each of these depends on the more general statement it is derived from
+   (slot_write_WF_gen, insert_in_slot_WF_core, reach_ok_same_windows, remove_WF, remove_insert_WF_gen) *)
 Print Assumptions slot_write_WF.
-Print Assumptions insert_in_slot_WF_core.
-Print Assumptions foi_inr_sound.
 Print Assumptions insert_in_slot_WF_fis.
 Print Assumptions insert_in_slot_WF_foi.
 Print Assumptions insert_in_slot_WF_unhashed.
-Print Assumptions reach_ok_same_windows.
 Print Assumptions reach_ok_same_groups.
 Print Assumptions reach_ok_same_empties.
-Print Assumptions erase_empty_windows.
-Print Assumptions remove_WF.
 Print Assumptions remove_WF_eq.
-Print Assumptions remove_insert_WF_gen.
 Print Assumptions remove_insert_WF.
